@@ -318,7 +318,7 @@ SUBS = [
         "rounded delays of which one is negative", quick=2500, thorough=50000, pieces_quick=4),
     Sub("call_history", idd_hist_case(), run_idd_hist,
         "the same incoherent dedispersion repeated 2..5 times in one process (identical, or with DM / reference / start time / length / alignment "
-        "/ DM unit changed one at a time), every result traced; non-trivial = an identical repeat or >= 2 steps", quick=400, thorough=8000,
+        "/ DM unit / sample rate changed one at a time), every result traced; half of the histories run on ONE signal object re-assigned through its setters / in-place ufuncs between the calls, the others on fresh signals; non-trivial = an identical repeat or >= 2 steps", quick=400, thorough=8000,
         pieces_quick=4),
     Sub("long_signals", idd_long_case(), run_idd, "N in {2000, 4096, 10007, 70001}, up to 6 channels, delays scaled with N; non-trivial as above",
         quick=40, thorough=600, pieces_quick=4),
